@@ -412,14 +412,14 @@ json build_config(ApiWorld& w, json const& cfg, Built& out)
                     auto pmid = find_model(units::MevEnergy{energy_of(pos)});
                     if (!pmid)
                     {
-                        fm.push_back("none");
+                        fm.push_back({{"m", "none"}, {"t", false}, {"rt", true}});
                         continue;
                     }
                     ModelId mid = phys.model_id(pmid);
                     std::string lab = safe_label(*out.reg, phys.model_to_action(mid));
                     bool roundtrip = (phys.action_to_model(phys.model_to_action(mid)) == mid);
                     bool hastab = bool(phys.value_table(pmid));
-                    fm.push_back(lab + (roundtrip ? "" : "!rt") + (hastab ? "+t" : ""));
+                    fm.push_back({{"m", lab}, {"t", hastab}, {"rt", roundtrip}});
                 }
                 qj["fm"] = fm;
                 procs.push_back(qj);
@@ -588,6 +588,394 @@ int mode_api(std::string const& in, std::string const& out)
               << " selections, " << w.inexact << " inexact values\n";
     return 0;
 }
+
+//---------------------------------------------------------------------------//
+// LOOP MODE: the real stepping loop on the hand-built EM problem
+//---------------------------------------------------------------------------//
+char const* status_name(TrackStatus s)
+{
+    switch (s)
+    {
+        case TrackStatus::inactive: return "inactive";
+        case TrackStatus::initializing: return "initializing";
+        case TrackStatus::alive: return "alive";
+        case TrackStatus::errored: return "errored";
+        case TrackStatus::killed: return "killed";
+        default: return "?";
+    }
+}
+
+struct LoopShared
+{
+    ActionRegistry const* actions{nullptr};
+    std::vector<json> pend;
+    std::vector<bool> have;
+    std::vector<Real3> dir1;
+    // end-of-step MFP of the track last seen in the slot
+    struct Last
+    {
+        int ev{-1}, tid{-1};
+        double mfp{0};
+    };
+    std::vector<Last> last;
+    std::vector<json> out;
+    long nsteps{0};
+};
+
+//! q-units of a set of non-negative values: 2^-24 of the largest
+struct Quanta
+{
+    double q{1};
+    explicit Quanta(double vmax) : q(vmax > 0 ? vmax / double(1 << 24) : 1.0) {}
+    long long operator()(double v) const { return std::llround(v / q); }
+};
+
+class LoopObserver final : public CoreStepActionInterface, public ConcreteAction
+{
+  public:
+    LoopObserver(ActionId id, StepActionOrder order, std::string name, LoopShared* sh)
+        : ConcreteAction(id, "verif-x07-" + name, "verification observer"), order_(order), name_(name), sh_(sh)
+    {
+    }
+    StepActionOrder order() const final { return order_; }
+    void step(CoreParams const& params, CoreStateHost& state) const final;
+    void step(CoreParams const&, CoreStateDevice&) const final {}
+
+  private:
+    StepActionOrder order_;
+    std::string name_;
+    LoopShared* sh_;
+};
+
+void LoopObserver::step(CoreParams const& params, CoreStateHost& state) const
+{
+    LoopShared& sh = *sh_;
+    for (size_type i = 0; i < state.size(); ++i)
+    {
+        CoreTrackView track(params.host_ref(), state.ref(), TrackSlotId{i});
+        auto sim = track.make_sim_view();
+        if (name_ == "pre")
+        {
+            sh.have[i] = false;
+            if (sim.status() != TrackStatus::alive)
+                continue;
+            auto par = track.make_particle_view();
+            auto phys = track.make_physics_view();
+            auto pstep = track.make_physics_step_view();
+            auto matv = track.make_material_view().make_material_view();
+            auto const& pref = params.physics()->host_ref();
+            json j;
+            j["e"] = "LStep";
+            j["slot"] = int(i) + 1;
+            j["ev"] = int(sim.event_id().get());
+            j["tid"] = int(sim.track_id().get());
+            j["pt"] = int(par.particle_id().get());
+            j["mat"] = int(track.make_material_view().material_id().get());
+            j["ns0"] = int(sim.num_steps());
+            auto const& la = sh.last[i];
+            bool const cont = (la.ev == int(sim.event_id().get()) && la.tid == int(sim.track_id().get())
+                               && sim.num_steps() > 0);
+            j["cont"] = cont;
+            j["rM_prev"] = cont ? la.mfp : 0.0;
+            double const e0 = par.energy().value();
+            double const xi = e0 * pref.scalars.min_eprime_over_e;
+            j["rE_E0"] = e0;
+            j["rE_xi"] = xi;
+            j["stopped0"] = par.is_stopped();
+            j["rM_mfp0"] = phys.interaction_mfp();
+            int const np = phys.num_particle_processes();
+            double vmax = pstep.macro_xs();
+            for (int p = 0; p < np; ++p)
+                vmax = std::max(vmax, double(pstep.per_process_xs(ParticleProcessId(p))));
+            Quanta Q(vmax);
+            json pp = json::array(), ppq = json::array(), x0 = json::array(), xxi = json::array(),
+                 xem = json::array(), emax = json::array();
+            for (int p = 0; p < np; ++p)
+            {
+                ParticleProcessId ppid(p);
+                double v = pstep.per_process_xs(ppid);
+                pp.push_back({{"rX_v", v}});
+                ppq.push_back(Q(v));
+                // environment facts: the cross section function of the process, probed through the public view
+                x0.push_back({{"rX_v", phys.calc_xs(ppid, matv, units::MevEnergy{e0})}});
+                xxi.push_back({{"rX_v", phys.calc_xs(ppid, matv, units::MevEnergy{xi})}});
+                auto const& ix = phys.integral_xs_process(ppid);
+                double em = ix ? double(pref.reals[ix.energy_max_xs[phys.material_id().get()]]) : 0.0;
+                emax.push_back({{"rE_v", em}});
+                xem.push_back({{"rX_v", ix ? phys.calc_xs(ppid, matv, units::MevEnergy{em}) : 0.0}});
+            }
+            j["pp"] = pp;
+            j["ppq"] = ppq;
+            j["x0"] = x0;
+            j["xxi"] = xxi;
+            j["xem"] = xem;
+            j["emax"] = emax;
+            j["rX_tot"] = pstep.macro_xs();
+            j["totq"] = Q(pstep.macro_xs());
+            j["rL_lim"] = sim.step_length();
+            j["act0"] = safe_label(*sh.actions, sim.post_step_action());
+            // candidates for the limit (each is one public call / one division of logged values)
+            bool const hasel = bool(phys.eloss_ppid()) && !par.is_stopped();
+            j["haseloss"] = bool(phys.eloss_ppid());
+            j["rL_disc"] = pstep.macro_xs() > 0 ? phys.interaction_mfp() / pstep.macro_xs()
+                                                : std::numeric_limits<double>::infinity();
+            j["rL_rstep"] = hasel ? phys.range_to_step(phys.dedx_range()) : std::numeric_limits<double>::infinity();
+            j["rL_fixed"] = pref.scalars.fixed_step_limiter > 0 ? double(pref.scalars.fixed_step_limiter)
+                                                               : std::numeric_limits<double>::infinity();
+            sh.pend[i] = std::move(j);
+            sh.have[i] = true;
+        }
+        else if (name_ == "along")
+        {
+            if (!sh.have[i])
+                continue;
+            json& j = sh.pend[i];
+            auto par = track.make_particle_view();
+            auto phys = track.make_physics_view();
+            auto pstep = track.make_physics_step_view();
+            auto matv = track.make_material_view().make_material_view();
+            j["st1"] = status_name(sim.status());
+            j["act1"] = safe_label(*sh.actions, sim.post_step_action());
+            j["rL_len"] = sim.step_length();
+            double const e1 = par.energy().value();
+            j["rE_E1"] = e1;
+            j["stopped1"] = par.is_stopped();
+            double const mfp1 = track.make_physics_view().interaction_mfp();
+            j["rM_mfp1"] = mfp1;
+            // bracket of the decrement mfp0 - len * total (both factors are logged)
+            double const mfp0 = j["rM_mfp0"].get<double>();
+            double const used = sim.step_length() * pstep.macro_xs();
+            double const dec = mfp0 - used;
+            double const tol = 1e-12 * (std::fabs(mfp0) + std::fabs(used)) + 1e-300;
+            j["rM_declo"] = dec - tol;
+            j["rM_dechi"] = dec + tol;
+            json x1 = json::array();
+            int const np = phys.num_particle_processes();
+            for (int p = 0; p < np; ++p)
+                x1.push_back({{"rX_v", phys.calc_xs(ParticleProcessId(p), matv, units::MevEnergy{e1})}});
+            j["x1"] = x1;
+            j["depq1"] = 0;
+            j["rD_dep1"] = pstep.energy_deposition().value();
+            sh.dir1[i] = track.make_geo_view().dir();
+        }
+        else if (name_ == "sel")
+        {
+            if (!sh.have[i])
+                continue;
+            json& j = sh.pend[i];
+            auto pstep = track.make_physics_step_view();
+            j["act2"] = safe_label(*sh.actions, sim.post_step_action());
+            j["rM_mfp2"] = track.make_physics_view().interaction_mfp();
+            j["el2"] = pstep.element() ? int(pstep.element().get()) : -1;
+            j["rE_E2"] = track.make_particle_view().energy().value();
+            j["st2"] = status_name(sim.status());
+        }
+        else if (name_ == "post")
+        {
+            if (!sh.have[i])
+                continue;
+            json& j = sh.pend[i];
+            auto par = track.make_particle_view();
+            auto pstep = track.make_physics_step_view();
+            j["act3"] = safe_label(*sh.actions, sim.post_step_action());
+            j["st3"] = status_name(sim.status());
+            j["rE_E3"] = par.energy().value();
+            j["rM_mfp3"] = track.make_physics_view().interaction_mfp();
+            j["rD_dep3"] = pstep.energy_deposition().value();
+            int nsec = 0;
+            for (auto const& s : pstep.secondaries())
+                if (s)
+                    ++nsec;
+            j["nsec"] = nsec;
+            Real3 d = track.make_geo_view().dir();
+            j["dirsame"] = (d[0] == sh.dir1[i][0] && d[1] == sh.dir1[i][1] && d[2] == sh.dir1[i][2]);
+            sh.last[i].ev = j["ev"].get<int>();
+            sh.last[i].tid = j["tid"].get<int>();
+            sh.last[i].mfp = (sim.status() == TrackStatus::alive) ? track.make_physics_view().interaction_mfp() : 0.0;
+            sh.out.push_back(std::move(j));
+            sh.have[i] = false;
+            ++sh.nsteps;
+        }
+    }
+}
+
+// Replace every "r?_*" raw double by its dense rank within its class ? (per run); +-inf keep their order
+void rank_and_write(std::vector<json>& events, verif::NdjsonWriter& w)
+{
+    std::map<std::string, verif::Ranker> rk;
+    std::function<void(json&, bool)> walk = [&](json& j, bool collect) {
+        if (j.is_object())
+        {
+            for (auto it = j.begin(); it != j.end(); ++it)
+            {
+                std::string const& k = it.key();
+                if (k.size() > 3 && k[0] == 'r' && k[2] == '_' && it.value().is_number())
+                {
+                    std::string cls(1, k[1]);
+                    if (collect)
+                        rk[cls].add(it.value().get<double>());
+                    else
+                        it.value() = rk[cls](it.value().get<double>());
+                }
+                else
+                    walk(it.value(), collect);
+            }
+        }
+        else if (j.is_array())
+            for (auto& e : j)
+                walk(e, collect);
+    };
+    for (auto& e : events)
+        walk(e, true);
+    for (auto& kv : rk)
+        kv.second.finalize();
+    for (auto& e : events)
+    {
+        walk(e, false);
+        w(e);
+    }
+}
+
+void do_loop_run(json const& run, verif::NdjsonWriter& w)
+{
+    std::vector<json> events;
+    LoopShared sh;
+    int const rid = get<int>(run, "id", 0);
+    size_type const nslots = get<int>(run, "slots", 4);
+    long const maxiters = get<int>(run, "maxiters", 2000);
+    try
+    {
+        std::vector<Primary> prims;
+        int maxev = 0;
+        for (auto const& pj : run["prims"])
+        {
+            Primary p;
+            p.particle_id = ParticleId(pj["pt"].get<int>());
+            p.energy = units::MevEnergy{pj["E"].get<double>()};
+            p.position = {pj["pos"][0].get<double>(), pj["pos"][1].get<double>(), pj["pos"][2].get<double>()};
+            p.direction = make_unit_vector(
+                Real3{pj["dir"][0].get<double>(), pj["dir"][1].get<double>(), pj["dir"][2].get<double>()});
+            p.time = 0;
+            p.event_id = EventId(pj["ev"].get<int>());
+            maxev = std::max(maxev, pj["ev"].get<int>());
+            prims.push_back(p);
+        }
+        verif::ProblemOptions po;
+        po.max_events = maxev + 1;
+        po.rng_seed = get<unsigned>(run, "rng_seed", 2024u);
+        po.table_scale = get<double>(run, "table_scale", 1.0);
+        po.dedx = get<double>(run, "dedx", 2.0);
+        po.fixed_step = get<double>(run, "fixed_step", 0.0);
+        po.fluct = get<bool>(run, "fluct", false);
+        po.init_capacity = 8192;
+        verif::Problem prob;
+        verif::build_problem(prob, po);
+        verif::finalize_problem(prob);
+        auto reg = prob.action_reg;
+        sh.actions = reg.get();
+        reg->insert(std::make_shared<LoopObserver>(reg->next_id(), StepActionOrder::user_pre, "pre", &sh));
+        reg->insert(std::make_shared<LoopObserver>(reg->next_id(), StepActionOrder::along, "along", &sh));
+        reg->insert(std::make_shared<LoopObserver>(reg->next_id(), StepActionOrder::pre_post, "sel", &sh));
+        reg->insert(std::make_shared<LoopObserver>(reg->next_id(), StepActionOrder::user_post, "post", &sh));
+
+        StepperInput si;
+        si.params = prob.core;
+        si.stream_id = StreamId{0};
+        si.num_track_slots = nslots;
+        Stepper<MemSpace::host> stepper(si);
+        sh.pend.assign(nslots, json{});
+        sh.have.assign(nslots, false);
+        sh.dir1.assign(nslots, Real3{0, 0, 0});
+        sh.last.assign(nslots, LoopShared::Last{});
+
+        // ---- LConfig: processes per particle in ParticleProcessId order; model ranges from
+        // Model::applicability() (independent of the model finder)
+        auto const& physp = *prob.physics;
+        auto const& pref = physp.host_ref();
+        json parts = json::array();
+        for (auto pid : range(ParticleId{prob.particles->size()}))
+        {
+            json procs = json::array();
+            for (ProcessId prid : physp.processes(pid))
+            {
+                json pj;
+                pj["label"] = std::string(physp.process(prid)->label());
+                pj["integral"] = physp.process(prid)->use_integral_xs() ;
+                json models = json::array();
+                for (auto mid : range(ModelId{physp.num_models()}))
+                {
+                    if (physp.process_id(mid) != prid)
+                        continue;
+                    for (Applicability const& a : physp.model(mid)->applicability())
+                    {
+                        if (a.particle != pid)
+                            continue;
+                        models.push_back({{"label", std::string(physp.model(mid)->label())},
+                                          {"rE_lo", a.lower.value()},
+                                          {"rE_hi", a.upper.value()}});
+                    }
+                }
+                pj["models"] = models;
+                procs.push_back(pj);
+            }
+            parts.push_back({{"pt", int(pid.get())}, {"procs", procs}});
+        }
+        json nel = json::array();
+        for (auto mid : range(MaterialId{prob.mats->size()}))
+            nel.push_back(int(prob.mats->get(mid).num_elements()));
+        events.push_back({{"e", "LConfig"}, {"run", rid}, {"parts", parts}, {"nel", nel},
+                          {"rE_zero", 0.0}, {"rM_zero", 0.0}, {"rX_zero", 0.0}, {"rL_zero", 0.0}, {"rD_zero", 0.0},
+                          {"fixed_step", po.fixed_step},
+                          {"acts", {{"discrete", safe_label(*reg, pref.scalars.discrete_action())},
+                                    {"range", safe_label(*reg, pref.scalars.range_action())},
+                                    {"reject", safe_label(*reg, pref.scalars.integral_rejection_action())},
+                                    {"fixed", safe_label(*reg, pref.scalars.fixed_step_action)}}}});
+
+        long iters = 0;
+        StepperResult r = stepper(make_span(prims));
+        ++iters;
+        while (r && iters < maxiters)
+        {
+            r = stepper();
+            ++iters;
+        }
+        for (auto& j : sh.out)
+            events.push_back(std::move(j));
+        events.push_back({{"e", "LEnd"}, {"run", rid}, {"iters", int(iters)}, {"unfinished", bool(r)}});
+    }
+    catch (std::exception const& ex)
+    {
+        for (auto& j : sh.out)
+            events.push_back(std::move(j));
+        events.push_back({{"e", "Abort"}, {"run", rid}, {"what", std::string(ex.what()).substr(0, 400)}});
+    }
+    rank_and_write(events, w);
+}
+
+int mode_loop(std::string const& in, std::string const& out)
+{
+    json runs;
+    {
+        std::ifstream f(in);
+        if (!f)
+        {
+            std::cerr << "cannot read " << in << "\n";
+            return 2;
+        }
+        f >> runs;
+    }
+    verif::NdjsonWriter w(out);
+    long n = 0;
+    for (auto const& run : runs["runs"])
+    {
+        do_loop_run(run, w);
+        w.flush();
+        ++n;
+    }
+    w(json{{"e", "Close"}});
+    std::cerr << "vphysselect loop: " << n << " runs, " << w.count() << " records\n";
+    return 0;
+}
 }  // namespace
 
 int main(int argc, char** argv)
@@ -604,6 +992,8 @@ int main(int argc, char** argv)
     std::string mode = argv[1];
     if (mode == "api")
         return mode_api(argv[2], argv[3]);
+    if (mode == "loop")
+        return mode_loop(argv[2], argv[3]);
     std::cerr << "unknown mode " << mode << "\n";
     return 2;
 }
